@@ -273,6 +273,32 @@ func ruleLimitComparisons(c *core.Ctx, rule string) {
 				n++
 				ord[lim]++
 				key := fmt.Sprintf("%s/%s#%d", strings.TrimPrefix(fname, c.Repo+"/"), lim, ord[lim])
+				// the limit bounds the size itself: a side that adds something (header size,
+				// one more element) bounds another quantity than its siblings do
+				addend := func(e ast.Expr) string {
+					out := ""
+					ast.Inspect(e, func(m ast.Node) bool {
+						if b, ok := m.(*ast.BinaryExpr); ok && (b.Op == token.ADD || b.Op == token.SUB) {
+							for _, side := range []ast.Expr{b.X, b.Y} {
+								if isLimit(side) == "" {
+									if tv, ok := p.TypesInfo.Types[side]; ok && tv.Value != nil {
+										out = b.Op.String() + tv.Value.ExactString()
+									}
+								}
+							}
+						}
+						return true
+					})
+					return out
+				}
+				limSide, valSide := be.Y, be.X
+				if isLimit(be.X) != "" {
+					limSide, valSide = be.X, be.Y
+				}
+				if a, b := addend(limSide), addend(valSide); a != b {
+					c.Fail(rule, key, be.Pos(), "this comparison applies "+lim+" to the size "+b+" (the limit side has "+a+"): the sibling codecs bound the size itself, so sizes within that distance of the limit are produced by one side and refused by the other")
+					return true
+				}
 				c.Check(refuseStrict || inclusive, rule, key, be.Pos(), "values up to and including "+lim+" are accepted",
 					"this comparison with "+lim+" treats the limit itself as too large (>= / <) while the other codecs accept it: an encoding of exactly the limit is produced by one side and refused by the other")
 				return true
